@@ -149,6 +149,84 @@ JPEG = bytes.fromhex(
 )
 
 
+# --------------------------------------------------------------------------- content stream as an operator list
+GFX_SRC = (
+    "q 10 0 0 10 20 20 cm /Im1 Do Q q 5 0 0 5 60 20 cm /Im2 Do Q q /Im3 Do /Im4 Do Q /Fm Do "
+    "/GS0 gs 2 w [ 3 1 ] 0 d 1 J 1 j 4 M /Perceptual ri 1 i 10 10 m 20 20 l 30 10 40 10 50 20 c 60 30 70 30 v 80 40 90 50 y h S "
+    "/CS0 cs 0.1 0.2 0.3 sc /CS1 CS 1 SC /CS2 cs 0.5 scn /CS3 CS 0.1 0.9 SCN /CS4 cs /P0 scn 0.5 g 0.2 G 1 0 0 rg 0 1 0 RG 0 0 0 1 k 1 0 0 0 K "
+    "100 100 50 40 re B 100 150 50 40 re f* 10 200 m 50 200 l 50 240 l b* 5 5 m 6 6 l n 0 0 5 5 re W n 1 1 3 3 re W* n 7 7 m 8 8 l s 7 7 m 8 8 l 9 7 l b 7 7 m 8 8 l 9 7 l B* 7 7 m 8 8 l 9 7 l f 7 7 m 8 8 l 9 7 l F /Sh0 sh "
+    "/Tag MP /Tag /MC0 DP /Tag BMC /Span << /MCID 0 >> BDC BT /F1 9 Tf 2 Tr 3 Ts 90 Tz 1 Tc 2 Tw 11 TL 10 280 Td 1 0 0 1 10 270 Tm 0 -12 TD T* (Gfx) Tj [ (T) -20 (J) 5.5 ] TJ (a) ' 1 2 (b) \" ET EMC EMC BX EX "
+    "q 8 0 0 8 200 200 cm BI /W 2 /H 2 /CS /G /BPC 8 /F /AHx ID|00 FF 80 7F > EI Q BT /F1 9 Tf 10 10 Td (End) Tj ET"
+)
+
+
+def parse_ops(src: str):
+    """[(operands, operator, raw-bytes-after-operator)] from the mini-language above: tokens separated by blanks; /Name, numbers,
+    (string), [ array ], << dict >>; anything else is an operator; 'ID|data' attaches raw inline-image data to ID"""
+    toks = src.split(" ")
+    pos = 0
+
+    def value():
+        nonlocal pos
+        t = toks[pos]
+        pos += 1
+        if t == "[":
+            out = []
+            while toks[pos] != "]":
+                out.append(value())
+            pos += 1
+            return out
+        if t == "<<":
+            dd = {}
+            while toks[pos] != ">>":
+                k = toks[pos][1:]
+                pos += 1
+                dd[k] = value()
+            pos += 1
+            return dd
+        if t.startswith("/"):
+            return N(t[1:])
+        if t.startswith("("):
+            return t[1:-1].encode()
+        try:
+            return int(t)
+        except ValueError:
+            return float(t)
+
+    ops, operands = [], []
+    while pos < len(toks):
+        t = toks[pos]
+        if t[0] in "/([<-.0123456789":
+            operands.append(value())
+            continue
+        pos += 1
+        raw = b""
+        if t == "ID|00":
+            t = "ID"
+            end = toks.index("EI", pos)
+            raw = " ".join(["00"] + toks[pos:end]).encode()
+            pos = end
+        ops.append((operands, t, raw))
+        operands = []
+    assert not operands
+    return ops
+
+
+def ser_ops(ops) -> bytes:
+    from mc.pdfgen import ser
+
+    out = []
+    for operands, op, raw in ops:
+        out.extend(ser(v) for v in operands)
+        out.append(op.encode())
+        if raw:
+            out.append(raw)
+    return b" ".join(out)
+
+
+GFX_OPS = parse_ops(GFX_SRC)
+
+
 def seed_graphics() -> Tuple[Doc, Dict[str, Any]]:
     """form and image XObjects, inline image, filters and predictors, colour spaces, paths, marked content"""
     d = Doc()
@@ -175,16 +253,10 @@ def seed_graphics() -> Tuple[Doc, Dict[str, Any]]:
                           "CS3": [N("DeviceN"), [N("A"), N("B")], N("DeviceCMYK"), {"FunctionType": 2, "Domain": [0, 1, 0, 1], "N": 1}], "CS4": N("Pattern")},
            "ExtGState": {"GS0": gs}, "Properties": {"MC0": {"Type": N("OCG"), "Name": b"Layer"}}, "Pattern": {"P0": {"PatternType": 2, "Shading": {"ShadingType": 2, "ColorSpace": N("DeviceRGB"), "Coords": [0, 0, 1, 1]}}},
            "Shading": {"Sh0": {"ShadingType": 2, "ColorSpace": N("DeviceGray"), "Coords": [0, 0, 1, 1], "Function": {"FunctionType": 2, "Domain": [0, 1], "N": 1}}}}
-    content = (
-        b"q 10 0 0 10 20 20 cm /Im1 Do Q q 5 0 0 5 60 20 cm /Im2 Do Q q /Im3 Do /Im4 Do Q /Fm Do\n"
-        b"/GS0 gs 2 w [3 1] 0 d 1 J 1 j 4 M /Perceptual ri 1 i 10 10 m 20 20 l 30 10 40 10 50 20 c 60 30 70 30 v 80 40 90 50 y h S\n"
-        b"/CS0 cs 0.1 0.2 0.3 sc /CS1 CS 1 SC /CS2 cs 0.5 scn /CS3 CS 0.1 0.9 SCN /CS4 cs /P0 scn 0.5 g 0.2 G 1 0 0 rg 0 1 0 RG 0 0 0 1 k 1 0 0 0 K\n"
-        b"100 100 50 40 re B 100 150 50 40 re f* 10 200 m 50 200 l 50 240 l b* 5 5 m 6 6 l n 0 0 5 5 re W n /Sh0 sh\n"
-        b"/Tag MP /Tag /MC0 DP /Tag BMC /Span << /MCID 0 >> BDC BT /F1 9 Tf 2 Tr 3 Ts 90 Tz 1 Tc 2 Tw 11 TL 10 280 Td (Gfx) Tj (a) ' 1 2 (b) \" ET EMC EMC BX EX\n"
-        b"q 8 0 0 8 200 200 cm BI /W 2 /H 2 /CS /G /BPC 8 /F /AHx ID 00 FF 80 7F > EI Q BT /F1 9 Tf 10 10 Td (End) Tj ET"
-    )
+    content = ser_ops(GFX_OPS)
     cat = _skeleton(d, content, res)
-    return d, {"root": cat}
+    # "ops": the content stream's object number; C13's operator/operand faults re-serialise a damaged copy of GFX_OPS into it
+    return d, {"root": cat, "ops": max(n for n, (g, o) in d.objs.items() if isinstance(o, Stream) and o.data == content)}
 
 
 def seed_crypt() -> Tuple[Doc, Dict[str, Any]]:
@@ -337,6 +409,7 @@ def seed_ttf() -> Tuple[Doc, Dict[str, Any]]:
 def write(d: Doc, kw: Dict[str, Any], mutate: Any = None) -> bytes:
     kw = dict(kw)
     w = kw.pop("writer", None)
+    kw.pop("ops", None)
     if w is not None:
         return w(d, kw)
     return d.write(mutate=mutate, **kw)
